@@ -33,6 +33,11 @@ class PROP(Prop):
             for _ in range(runs):
                 nconn = rng.randrange(2, 17 if tier == "quick" else 65)
                 conns, metas = [], []
+                # some runs have connections that stay idle for a while before their first request: the others
+                # must be served meanwhile
+                idle = set(rng.sample(range(nconn), rng.randrange(1, max(2, nconn // 3)))) if rng.random() < 0.6 else set()
+                if len(idle) == nconn:
+                    idle.pop()
                 for ci in range(nconn):
                     plan, reqs = [], []
                     for seq in range(rng.randrange(1, 13)):
@@ -47,12 +52,15 @@ class PROP(Prop):
                             req = ("MWR", ci, seq, 1)
                         tid, uid = (ci * 100 + seq) & 0xFFFF, ci & 0xFF
                         fr = cligen.frame(proto, tid, uid, mb.spec_req_pdu(req))
-                        plan.append("%d:%s" % (rng.choice([0, 0, 50, 300]), fr.hex()))
+                        delay = rng.choice([0, 0, 50, 300])
+                        if ci in idle and seq == 0:
+                            delay = 600000          # 600 ms of silence after connecting
+                        plan.append("%d:%s" % (delay, fr.hex()))
                         reqs.append((tid if proto == "tcp" else 0, uid, req))
                     conns.append(",".join(plan))
                     metas.append(reqs)
                 line = "CONC %s %d %s" % (proto, rng.choice([2, 4, 8]), "|".join(conns))
-                cs.append(Case(line, {"k": "conc", "proto": proto, "conns": [[(t, u, mb.show_req(r)) for t, u, r in m] for m in metas], "n": nconn}))
+                cs.append(Case(line, {"k": "conc", "proto": proto, "conns": [[(t, u, mb.show_req(r)) for t, u, r in m] for m in metas], "n": nconn, "idle": sorted(idle)}))
         return cs
 
     def followup(self, cases, rng, tier):
@@ -113,6 +121,8 @@ class PROP(Prop):
                 return "connection %d received %s, its own replies in order are %s" % (ci, f["recv"][:80], want.hex()[:80])
             if f["addr"] != "1":
                 return "connection %d: service factory saw its peer address %s times" % (ci, f["addr"])
+            if want and ci not in c.meta.get("idle", []) and c.meta.get("idle") and int(f.get("ms", "0")) > 350:
+                return "connection %d got its last reply after %s ms while other connections sat idle for 600 ms: it was held up by them" % (ci, f["ms"])
         return None
 
     def nontrivial(self, c):
